@@ -39,8 +39,155 @@ def payload_db(path, page_size, blob_lengths, salt=0):
 
 def oracle_rows(path, sql, params=()):
     con = sqlite3.connect("file:%s?mode=ro" % path, uri=True)
-    con.text_factory = bytes
+    con.text_factory = values.TextBytes
     try:
         return [tuple(values.from_sqlite(x) for x in r) for r in con.execute(sql, params)]
     finally:
         con.close()
+
+
+# ---------------------------------------------------------------------------------------------
+# Databases for the b-tree family (C01-C04, C12, C13, C17): real SQLite writes them all.
+
+def _rows_values(rnd, n, textpool, wide=False):
+    out = []
+    for i in range(n):
+        r = rnd.random()
+        if r < 0.08:
+            a = None
+        elif r < 0.45:
+            a = rnd.choice([0, 1, -1, 2, 7, 127, 128, -129, 32767, 65536, 2 ** 31, -2 ** 31 - 1, 2 ** 47, 2 ** 53, 2 ** 53 + 1,
+                            2 ** 63 - 1, -2 ** 63, rnd.randrange(-1000, 1000)])
+        elif r < 0.6:
+            a = rnd.choice([0.5, -0.5, 1.0, 2.0 ** 53, 1e300, -1e300, 3.25, float(rnd.randrange(-50, 50)) + 0.5])
+        elif r < 0.9:
+            a = rnd.choice(textpool)
+        else:
+            a = bytes(rnd.getrandbits(8) for _ in range(rnd.randrange(0, 6)))
+        out.append(a)
+    return out
+
+
+TEXTPOOL = ["", "a", "A", "b", "B", "ab", "aB", "Ab", "a ", "a  ", "abc", "ABC", "abd", "z", "Z", "é", "É", " a", "a\t",
+            "hello", "Hello", "HELLO", "hello ", "world", "1", "10", "2"]
+
+
+def tree_db(path, page_size, rnd, n=200, longkeys=False, pad=180, auto_vacuum=None, fragment=True, vacuum=False, extreme=True, deep_rows=0):
+    """A database with a rowid table `r` (+ indexes), a WITHOUT ROWID table `w` (+ index), an altered
+    table `alt` (short rows completed by DEFAULT), an empty table `e`.  Returns a description."""
+    pr = {}
+    if auto_vacuum:
+        pr["auto_vacuum"] = auto_vacuum
+    con = connect(path, page_size, **pr)
+    con.execute("CREATE TABLE r(id INTEGER PRIMARY KEY, a, b TEXT, c)")
+    con.execute("CREATE INDEX ra ON r(a)")
+    con.execute("CREATE INDEX rb ON r(b COLLATE NOCASE DESC, a)")
+    con.execute("CREATE INDEX rpart ON r(c) WHERE a > 0")
+    con.execute("CREATE UNIQUE INDEX rexpr ON r(id + 1, b COLLATE RTRIM)")
+    con.execute("CREATE TABLE w(k1 TEXT COLLATE NOCASE, k2 INT, v, x DEFAULT 7, PRIMARY KEY(k1, k2 DESC)) WITHOUT ROWID")
+    con.execute("CREATE INDEX wv ON w(v, k2)")
+    con.execute("CREATE TABLE alt(p INTEGER PRIMARY KEY, q)")
+    con.execute("CREATE TABLE e(x, y)")
+    con.execute("CREATE INDEX ex ON e(x)")
+    con.execute("CREATE TABLE rowidcol(rowid TEXT, oid, z)")
+    con.execute("CREATE TABLE pl(id INTEGER PRIMARY KEY, b)")
+    con.execute("CREATE INDEX plb ON pl(b)")
+    con.execute("BEGIN")
+    # payload lengths on both sides of every local/overflow spill threshold of this page size
+    U = page_size
+    targets = [sqlitefmt.max_local(U, False) + j * (U - 4) for j in (0, 1, 2)] + \
+              [sqlitefmt.max_local(U, True) + j * (U - 4) for j in (0, 1)]
+    lens = sorted({c + e - d for c in targets for e in (-1, 0, 1) for d in range(3, 9) if c + e - d >= 0})
+    if U >= 16384:
+        lens = lens[::2]
+    for i, ln in enumerate(lens):
+        con.execute("INSERT INTO pl VALUES(?, ?)", (i + 1, pattern_blob(ln, i)))
+    avals = _rows_values(rnd, n, TEXTPOOL)
+    pad = pad if longkeys else 0
+    ids = []
+    for i in range(n):
+        rid = i + 1
+        if extreme and i == 0:
+            rid = -2 ** 63
+        elif extreme and i == 1:
+            rid = -5
+        elif extreme and i == 2:
+            rid = 0
+        elif extreme and i == n - 1:
+            rid = 2 ** 63 - 1
+        elif extreme and i == n - 2:
+            rid = 2 ** 40 + 7
+        b = rnd.choice(TEXTPOOL) + ("k%04d" % (i // 3)) * (1 if not longkeys else 0)
+        if longkeys:
+            b = rnd.choice(TEXTPOOL[:8]) + ("%03d" % (i // 2)) + "x" * pad
+        r = rnd.random()
+        if r < 0.1:
+            c = None
+        elif r < 0.2:
+            c = pattern_blob(rnd.choice([0, 1, 50, page_size - 40, page_size, 2 * page_size + 17]), i)
+        elif r < 0.6:
+            c = "c%d" % rnd.randrange(0, 40)
+        else:
+            c = rnd.randrange(-5, 50)
+        con.execute("INSERT INTO r VALUES(?,?,?,?)", (rid, avals[i], b, c))
+        ids.append(rid)
+    for i in range(n // 2 + 3):
+        k1 = rnd.choice(["a", "A", "b", "B", "ab", "hello", "Hello", "z" * (pad // 2 + 1), "m%02d" % (i // 4)])
+        k2 = rnd.choice([None, i, -i, i // 2])
+        try:
+            if rnd.random() < 0.85:
+                con.execute("INSERT INTO w VALUES(?,?,?,?)", (k1, k2, rnd.choice(avals), rnd.choice([None, 1, "x"])))
+            else:
+                con.execute("INSERT INTO w(k1, k2, v) VALUES(?,?,?)", (k1, k2 if k2 is not None else i, rnd.choice(avals)))
+        except sqlite3.IntegrityError:
+            pass
+    if deep_rows:
+        # big rowids (9-byte varints in interior cells) and ~110-byte rows: a depth-3 table on small pages
+        con.execute("CREATE TABLE deep(id INTEGER PRIMARY KEY, t)")
+        for i in range(deep_rows):
+            con.execute("INSERT INTO deep VALUES(?, ?)", (2 ** 62 + i * 3, ("d%04d" % i) * 22))
+    for i in range(12):
+        con.execute("INSERT INTO alt VALUES(?,?)", (i * 3 + 1, "q%d" % i))
+        con.execute("INSERT INTO rowidcol VALUES(?,?,?)", ("text%d" % i, i * 1.5, i))
+    con.execute("COMMIT")
+    con.execute("ALTER TABLE alt ADD COLUMN d1 DEFAULT 42")
+    con.execute("ALTER TABLE alt ADD COLUMN d2 DEFAULT 'dflt'")
+    con.execute("ALTER TABLE alt ADD COLUMN d3")
+    con.execute("INSERT INTO alt VALUES(100, 'new', 1, 'two', 3.5)")
+    deleted = []
+    if fragment and n >= 20:
+        con.execute("BEGIN")
+        for rid in ids[5:n:7] + ids[n // 2: n // 2 + n // 8]:
+            con.execute("DELETE FROM r WHERE id=?", (rid,))
+            deleted.append(rid)
+        con.execute("COMMIT")
+    if vacuum:
+        con.execute("VACUUM")
+    con.execute("PRAGMA integrity_check")
+    con.close()
+    return describe(path, deleted=deleted)
+
+
+def describe(path, deleted=()):
+    """What real SQLite says about the schema: tables, indexes, key definitions (PRAGMA *_xinfo)."""
+    con = sqlite3.connect("file:%s?mode=ro" % path, uri=True)
+    ok = con.execute("PRAGMA integrity_check").fetchall()
+    if ok != [("ok",)]:
+        raise RuntimeError("generated database fails integrity_check: %r" % (ok,))
+    d = {"path": path, "tables": {}, "deleted": list(deleted),
+         "page_size": con.execute("PRAGMA page_size").fetchone()[0]}
+    for name, sql in con.execute("SELECT name, sql FROM sqlite_master WHERE type='table'").fetchall():
+        cols = con.execute("PRAGMA table_xinfo(%s)" % name).fetchall()
+        wr = "WITHOUT ROWID" in (sql or "").upper()
+        t = {"name": name, "sql": sql, "without_rowid": wr,
+             "columns": [{"name": c[1], "type": c[2], "notnull": c[3], "dflt": c[4], "pk": c[5]} for c in cols if c[6] == 0],
+             "indexes": {}}
+        for _, iname, unique, origin, partial in con.execute("PRAGMA index_list(%s)" % name).fetchall():
+            xi = con.execute("PRAGMA index_xinfo(%s)" % iname).fetchall()
+            isql = con.execute("SELECT sql FROM sqlite_master WHERE name=?", (iname,)).fetchone()
+            t["indexes"][iname] = {"name": iname, "unique": unique, "origin": origin, "partial": partial,
+                                   "sql": isql[0] if isql else None,
+                                   "cols": [{"cid": x[1], "name": x[2], "desc": bool(x[3]), "coll": x[4].lower(), "key": x[5]} for x in xi]}
+        d["tables"][name] = t
+    con.close()
+    return d
